@@ -87,7 +87,11 @@ def ensure_ntlm_credentials() -> None:
     """pyspnego's NTLM acceptor reads DOMAIN:user:password from NTLM_USER_FILE."""
     global _ntlm_file
     if _ntlm_file is None:
-        d = tempfile.mkdtemp(prefix="vf-ntlm-")
+        import atexit
+        import shutil
+
+        d = tempfile.mkdtemp(prefix="vf-ntlm-", dir=os.environ.get("VF_TMP"))
+        atexit.register(shutil.rmtree, d, True)
         _ntlm_file = os.path.join(d, "users")
         with open(_ntlm_file, "w") as f:
             f.write("VERIF:dcuser:Pass-w0rd!\n")
